@@ -21,7 +21,7 @@ import sys
 import weakref
 
 from . import c20_driver, c20_reopen, common
-from .common import coq_bool, coq_bytes, coq_list
+from .common import coq_bool, coq_list
 
 LEVEL = "proof"
 SOURCES = ["scrapli/logging.py", "scrapli/channel/base_channel.py", "scrapli/channel/sync_channel.py",
@@ -40,8 +40,43 @@ class Starved(BaseException):
 # ------------------------------------------------------------------------------------------------
 # Coq terms
 # ------------------------------------------------------------------------------------------------
+BIG_TERM = 512
+_RUN = re.compile(r"(.{1,12}?)\1{23,}", re.S)
+
+
+def _lit(codes):
+    return "[" + ";".join(str(c) for c in codes) + "]" if codes else "(@nil N)"
+
+
+def _compact(s):
+    """a long string / byte string as a Coq term of type list N WITHOUT loss: literal pieces and `rp n block` (block repeated n
+    times, decoded inside Coq by N.iter) for its periodic stretches.  A 256 KiB payload written out as a list literal does
+    not get through coqc (seconds per 16 KiB, stack overflow from 64 KiB on); the big payloads of the size families are a tag
+    followed by a periodic fill, so the term of the case AND of the file observed for it stay a few hundred characters."""
+    parts, pos = [], 0
+    for m in _RUN.finditer(s):
+        if m.start() > pos:
+            parts.append(_lit([ord(c) for c in s[pos:m.start()]]))
+        blk = m.group(1)
+        parts.append("rp %d %s" % (len(m.group(0)) // len(blk), _lit([ord(c) for c in blk])))
+        pos = m.end()
+    if pos < len(s):
+        parts.append(_lit([ord(c) for c in s[pos:]]))
+    return "(" + " ++ ".join(parts) + ")" if parts else "(@nil N)"
+
+
 def cps(s):
+    if len(s) >= BIG_TERM:
+        return _compact(s)
     return "[" + ";".join(str(ord(c)) for c in s) + "]" if s else "(@nil N)"
+
+
+coq_bytes = common.coq_bytes
+
+
+def cbytes(b):
+    """bytes argument of a log record (log-seq / session / log-mode terms, whose headers define rp)"""
+    return _compact(b.decode("latin-1")) if len(b) >= BIG_TERM else common.coq_bytes(b)
 
 
 def copt(s):
@@ -51,7 +86,7 @@ def copt(s):
 def rec_term(rd, asctime):
     args = []
     for k, v in rd["args"]:
-        args.append("ABytes %s" % coq_bytes(bytes.fromhex(v)) if k == "b" else "AStr %s" % cps(v))
+        args.append("ABytes %s" % cbytes(bytes.fromhex(v)) if k == "b" else "AStr %s" % cps(v))
     ex = rd["extra"]
     module = os.path.splitext(os.path.basename(rd["path"]))[0]
     return "(mkR %s %s (mkM %s %s (mkX %s %s %s) %s %s %d))" % (
@@ -59,7 +94,11 @@ def rec_term(rd, asctime):
         copt(ex.get("host")), copt(ex.get("port")), copt(ex.get("uid")), cps(module), cps(rd["func"]), rd["lineno"])
 
 
+RP_DEF = "Definition rp (n : N) (b : list N) : list N := N.iter n (fun acc => b ++ acc) []."
+
 LOG_HEADER = """From Verif Require Import Bytes LogFormat LogHandler.
+(* rp n b : b repeated n times — the lossless run-length spelling of long periodic strings (see _compact in the harness) *)
+Definition rp (n : N) (b : list N) : list N := N.iter n (fun acc => b ++ acc) [].
 Definition chk (c : bool * bool * bool * str * list record * str * nat * nat) : bool :=
   let '(buffered, append, caller, existing, recs, f, e, x) := c in
   let st := run_handler buffered (fixed (mkFC caller true)) existing append recs in
@@ -289,13 +328,18 @@ def run_log_impl(case, workdir):
             "setup_scrapli": setup_scrapli, "left_handlers": left_handlers, "file_exists": os.path.exists(path)}
 
 
-def expected_log_regex(case, asctime):
+BIG_LITERAL = 2048
+
+
+def expected_log_regex(case, asctime, big=None):
     """independent oracle: the file a faithful handler leaves for a sequence of well-formed records.
     Uses CPython's own % formatting and repr, not the model.  It demands what the property says — every message,
     in order, numbered consecutively, consecutive reads coalesced with the concatenated payload, previous content kept
     in append mode and dropped in write mode — and leaves the layout of the other columns (target, caller info, header
     row) open: a change of layout alone is reported through the model correspondence, not as a failing input.
-    The target column of entry i is captured as group t<i>: oracle_log checks WHOSE target it is (own_targets)."""
+    The target column of entry i is captured as group t<i>: oracle_log checks WHOSE target it is (own_targets).
+    With a list as `big`: a message of BIG_LITERAL characters or more is spelled '(?P<m<i>>.{its length})' instead of as a
+    literal and (i, message) is appended to the list — see match_log."""
     entries = expected_entries(case)
     out = re.escape(case["existing"] or "") if case["append"] else ""
     loose = r"[^\n]*?"
@@ -303,8 +347,31 @@ def expected_log_regex(case, asctime):
         if i == 0:
             out += r"(?:ID[^\n]*MESSAGE\n)?"
         cols = [re.escape("%-5d" % (i + 1)), re.escape(asctime), re.escape("%-8s" % logging.getLevelName(rd["level"])), r"(?P<t%d>%s)" % (i, loose)]
-        out += re.escape(" | ").join(cols) + re.escape(" | ") + (loose + re.escape(" | ") if case["caller"] else "") + re.escape(m) + re.escape("\n")
+        if big is not None and len(m) >= BIG_LITERAL:
+            big.append((i, m))
+            msg = r"(?P<m%d>.{%d})" % (i, len(m))
+        else:
+            msg = re.escape(m)
+        out += re.escape(" | ").join(cols) + re.escape(" | ") + (loose + re.escape(" | ") if case["caller"] else "") + msg + re.escape("\n")
     return out
+
+
+def match_log(case, content, asctime):
+    """re.fullmatch(expected_log_regex(case, asctime), content, re.S), without compiling messages of hundreds of KiB as
+    regex literals when that can be avoided (the sre compiler costs ~1 us per character): the regex with '.{n}' in the place
+    of each long message is a relaxation of the literal one, explored in the same order — no match there, no match of the
+    literal regex; a match whose '.{n}' groups ARE the messages is the match of the literal regex.  Anything else (a match
+    with another text in the place of a long message) is decided by the literal regex itself."""
+    big = []
+    rx = expected_log_regex(case, asctime, big)
+    if big:
+        m = re.fullmatch(rx, content, re.S)
+        if m is None:
+            return None
+        if all(m.group("m%d" % i) == lit for i, lit in big):
+            return m
+        rx = expected_log_regex(case, asctime)
+    return re.fullmatch(rx, content, re.S)
 
 
 def expected_entries(case):
@@ -353,7 +420,7 @@ def target_is_own(shown, extra):
 
 def target_mismatches(case, obs, asctime):
     """[(line number, target column as written, what its own record's extras spell)] — for the replay output"""
-    m = re.fullmatch(expected_log_regex(case, asctime), obs["file"], re.S)
+    m = match_log(case, obs["file"], asctime)
     if not m:
         return []
     return [(i + 1, m.group("t%d" % i).rstrip(" "), own_targets(rd["extra"])[0], rd["extra"])
@@ -371,8 +438,7 @@ def oracle_log(case, obs, asctime):
         return "logging call raised %s" % obs["escaped"][0]
     if obs["errors"]:
         return "%d record(s) reported as '--- Logging error ---' on stderr instead of being written" % obs["errors"]
-    rx = expected_log_regex(case, asctime)
-    m = re.fullmatch(rx, obs["file"], re.S)
+    m = match_log(case, obs["file"], asctime)
     if not m:
         return "file content is not the emitted sequence (reads coalesced)" if case["buffered"] else "file content is not the emitted sequence"
     # faithful attribution: the line of entry i (a record, or a run of reads: its first record) names that record's connection
@@ -517,6 +583,228 @@ def gen_log_case(rng, wide, malformed=False):
             "close": rng.choice(["close", "shutdown"]), "recs": recs, "domain": not malformed, "shared_host_port": bool(pool)}
 
 
+# -- size families: payloads around powers of two, 1 KiB .. 256 KiB -----------------------------------
+SIZE_POWERS = list(range(10, 19))
+SIZE_BLOCKS = [b"a", b"x", b"\xff", b"'", b"'\"", b"%", b"\\", b"\r\n", b"\x1b[0m", b"%r", b"a\x00", b"\xc3\x28", b"ab "]
+# one character per record: the reads / other records of a case, and what is between the big ones
+SIZE_SHAPES = ["sB", "ssBsw", "Bsi", "wsBBsi", "sBs", "sWs", "sIs", "sEs", "BsB", "isBw", "sBWs", "WB", "sBisB", "sEsB", "BB", "IsW", "ssssB", "sBssBs", "B", "wBw"]
+
+
+def size_points(powers=SIZE_POWERS):
+    return [(k, d) for k in powers for d in (-1, 0, 1)]
+
+
+def sized_bytes(n, measure, block, tag):
+    """a byte string of size exactly n — n is its length (measure 'raw') or the length of its repr, the text the handler
+    buffers (measure 'repr') —: the tag (names the record: no two payloads of a case are equal, nor one the other's
+    prefix, so a swap or a loss shows), then the block repeated, then a's.  Periodic on purpose (see _compact)."""
+    size = (lambda b: len(repr(b))) if measure == "repr" else len
+    unit = max(1, size(tag + block * 9) - size(tag + block * 8))
+    k = max(0, (n - size(tag)) // unit)
+    while k > 0 and size(tag + block * k) > n:
+        k -= 1
+    body = tag + block * k
+    body += b"a" * (n - size(body))
+    if size(body) != n:
+        raise ValueError("no payload of %s size %d over %r" % (measure, n, block))
+    return body
+
+
+def sized_text(n, ch, tag):
+    return (tag + ch * n)[:n] if n >= len(tag) else ch * n
+
+
+def gen_size_case(rng, wide, point, shape, fill="periodic", second=None):
+    """one record sequence of the given shape: s/w/i small read / write / info, B big lazy read (`read: %r` % bytes), E big eager
+    read (the whole message a str), W big lazy write (`write: %r` % str), I big info message.  The first big record has the
+    size of `point` = (k, d): 2^k + d; further big ones the size of `second` (default: another point not above the first).
+    fill 'periodic': tag + repeated block (goes through the model too); 'random': tag + bytes of PAYLOAD_ALPHABET (oracle only)."""
+    k, d = point
+    n = (1 << k) + d
+    measure = rng.choice(["raw", "repr"])
+    ex = gen_extra(rng)
+    buffered = rng.random() < 0.85
+    recs, sizes, nbig = [], [], 0
+    for j, ch in enumerate(shape):
+        r = gen_record(rng, False, ex)
+        tag = ("<%d>" % j).encode()
+        if ch in "BEWI":
+            if nbig == 0:
+                size, meas = n, measure
+            else:
+                k2, d2 = second or (rng.choice([x for x in SIZE_POWERS if x <= k]), rng.choice([-1, 0, 1]))
+                size, meas = (1 << k2) + d2, rng.choice(["raw", "repr"])
+            nbig += 1
+        if ch == "s":
+            r["kind"], r["msg"], r["args"] = "lazy_read", "read: %r", [["b", (tag + gen_payload(rng)).hex()]]
+        elif ch == "w":
+            r["kind"], r["msg"], r["args"] = "lazy_write", "write: %r", [["s", "show tech %d" % j]]
+        elif ch == "i":
+            r["kind"], r["msg"], r["args"], r["level"] = "info", "sending channel input: show tech %d" % j, [], 20
+        elif ch == "B":
+            if fill == "random":
+                b = tag + bytes(rng.choice(PAYLOAD_ALPHABET) for _ in range(size - len(tag)))
+                meas = "raw"
+            else:
+                b = sized_bytes(size, meas, rng.choice(SIZE_BLOCKS), tag)
+            r["kind"], r["msg"], r["args"] = "lazy_read", "read: %r", [["b", b.hex()]]
+            sizes.append(["read", meas, size])
+        elif ch == "E":     # eager: the text after "read: " has the size
+            r["kind"], r["msg"], r["args"] = "eager_read", "read: " + sized_text(size, rng.choice("ax%'"), tag.decode()), []
+            sizes.append(["eager_read", "text", size])
+        elif ch == "W":
+            r["kind"], r["msg"], r["args"] = "lazy_write", "write: %r", [["s", sized_text(size, rng.choice("ax%'\\\n"), tag.decode())]]
+            sizes.append(["write", "text", size])
+        elif ch == "I":
+            r["kind"], r["msg"], r["args"], r["level"] = "info", sized_text(size, rng.choice("ax%{"), "info " + tag.decode()), [], 20
+            sizes.append(["info", "text", size])
+        else:
+            raise ValueError(shape)
+        recs.append(r)
+    append = rng.random() < 0.25
+    return {"buffered": buffered, "append": append, "caller": rng.random() < 0.2, "existing": rng.choice([None, "old line\n"]) if append else None,
+            "close": rng.choice(["close", "shutdown"]), "recs": recs, "domain": True,
+            "size_family": {"shape": shape, "power": k, "delta": d, "sizes": sizes, "fill": fill}}
+
+
+def size_cases(rng, wide, thorough):
+    """(cases for model + oracle, cases for the oracle alone).  Every size point 2^k + d (k = 10..18, d = -1, 0, 1) heads one
+    case (thorough: one per measure and three more), the shapes taken in rotation from a shuffled SIZE_SHAPES so that every shape
+    meets small and big sizes; plus mixed small/big runs with random shapes.  Quick tier: the model evaluates every case up to
+    16 KiB + 1 and one case per power above, the rest is decided by the oracle alone; thorough: the model evaluates all the
+    periodic ones."""
+    shapes = list(SIZE_SHAPES)
+    rng.shuffle(shapes)
+    both, oracle_only, i = [], [], 0
+    above = {}
+    for rnd in range(5 if thorough else 1):
+        for pt in size_points():
+            c = gen_size_case(rng, wide, pt, shapes[i % len(shapes)])
+            i += 1
+            if thorough or pt[0] <= 14 or above.setdefault(pt[0], rng.choice([-1, 0, 1])) == pt[1]:
+                both.append(c)
+            else:
+                oracle_only.append(c)
+    for _ in range(60 if thorough else 10):                  # mixed runs, random shapes
+        shape = "".join(rng.choice("ssssBBwiEWI") for _ in range(rng.choice([2, 3, 4, 6, 9])))
+        if not set(shape) & set("BEWI"):
+            shape += "B"
+        pt = (rng.choice(SIZE_POWERS if thorough else SIZE_POWERS[:7]), rng.choice([-1, 0, 1]))
+        if rng.random() < 0.5:
+            oracle_only.append(gen_size_case(rng, wide, pt, shape, fill="random"))
+        else:
+            (both if (thorough or pt[0] <= 13) else oracle_only).append(gen_size_case(rng, wide, pt, shape))
+    return both, oracle_only
+
+
+def log_case_key(case):
+    """what identifies a case in the evidence: the whole case, or (size families: megabytes) its description and a digest"""
+    if "size_family" in case:
+        import hashlib
+        return json.dumps([case["size_family"], case["buffered"], case["append"], case["caller"], case["close"],
+                           hashlib.sha256(json.dumps(case["recs"], sort_keys=True).encode()).hexdigest()], sort_keys=True)
+    return json.dumps(case, sort_keys=True)
+
+
+def shrink_log_sizes(case, workdir, asctime, why, fails=None):
+    """shorten each long payload (a prefix of it) as far as the oracle keeps failing the same way: bisection per record"""
+    cur = case
+
+    def with_len(c, i, n):
+        rd = dict(c["recs"][i])
+        if rd["args"]:
+            kind, v = rd["args"][-1]
+            rd["args"] = rd["args"][:-1] + [[kind, v[:2 * n] if kind == "b" else v[:n]]]
+        else:
+            rd["msg"] = rd["msg"][:n]
+        return dict(c, recs=c["recs"][:i] + [rd] + c["recs"][i + 1:])
+
+    def length(rd):
+        if rd["args"]:
+            kind, v = rd["args"][-1]
+            return len(v) // 2 if kind == "b" else len(v)
+        return len(rd["msg"])
+
+    fails = fails or (lambda c: oracle_log(c, run_log_impl(c, workdir), asctime) == why)
+    for i in range(len(cur["recs"])):
+        hi = length(cur["recs"][i])
+        if hi < 64:
+            continue
+        lo = 8           # the tag / the "read: " prefix stay
+        if fails(with_len(cur, i, lo)):
+            cur = with_len(cur, i, lo)
+            continue
+        while hi - lo > 1:            # invariant: fails at hi, holds at lo
+            mid = (lo + hi) // 2
+            if fails(with_len(cur, i, mid)):
+                hi = mid
+            else:
+                lo = mid
+        cur = with_len(cur, i, hi)
+    return cur if fails(cur) else case
+
+
+def read_stream(case, obs):
+    """layout-free reading of the file for cases whose messages are one line each: [('r', text of the reads of a run, concatenated) |
+    ('o', message)] as emitted and as found in the file, where a read line may be spelled either way ('read : ' + repr of the
+    encoded payload text, or 'read: ' + the text).  None when not applicable (multi-line messages, unparsable file)."""
+    msgs = [(rd["msg"] % _args(rd)) if rd["args"] else rd["msg"] for rd in case["recs"]]
+    if any("\n" in m or m.startswith("read : ") for m in msgs):
+        return None
+
+    def merge(items):
+        out = []
+        for k, v in items:
+            if k == "r" and out and out[-1][0] == "r":
+                out[-1] = ("r", out[-1][1] + v)
+            else:
+                out.append((k, v))
+        return out
+    want = merge([("r", m[len(READ_PREFIX):]) if m.startswith(READ_PREFIX) else ("o", m) for m in msgs])
+    content = obs["file"]
+    if case["append"] and case["existing"]:
+        if not content.startswith(case["existing"]):
+            return None
+        content = content[len(case["existing"]):]
+    lines = content.split("\n")
+    if lines and lines[-1] == "":
+        lines.pop()
+    if lines and lines[0].startswith("ID ") and lines[0].endswith("MESSAGE"):
+        lines = lines[1:]
+    ncol = 7 if case["caller"] else 4
+    got = []
+    try:
+        for ln in lines:
+            parts = ln.split(" | ", ncol)
+            if len(parts) != ncol + 1:
+                return None
+            m = parts[-1]
+            if m.startswith("read : "):
+                got.append(("r", ast.literal_eval(m[len("read : "):]).decode()))
+            elif m.startswith(READ_PREFIX):
+                got.append(("r", m[len(READ_PREFIX):]))
+            else:
+                got.append(("o", m))
+    except Exception:  # noqa
+        return None
+    return want, merge(got)
+
+
+def why_read_order(case, obs):
+    """what is wrong with the BYTES of the reads, whatever the layout of the lines: None if nothing (or not applicable)"""
+    ws = read_stream(case, obs)
+    if ws is None or ws[0] == ws[1]:
+        return None
+    want, got = ws
+    if [k for k, _ in want] == [k for k, _ in got] and all(sorted(a[1]) == sorted(b[1]) and len(a[1]) == len(b[1]) for a, b in zip(want, got)):
+        i = [a == b for a, b in zip(want, got)].index(False)
+        j = next(x for x in range(len(want[i][1])) if want[i][1][x] != got[i][1][x])
+        return ("the reads are not in the file in the order they were made (nothing lost, nothing twice): run %d of reads, from character %d on the file "
+                "has %r where %r was read" % (i + 1, j, got[i][1][j:j + 40], want[i][1][j:j + 40]))
+    return "the text of the reads in the file (runs concatenated) is not the text that was read: %d characters read, %d in the file" % (
+        sum(len(v) for k, v in want if k == "r"), sum(len(v) for k, v in got if k == "r"))
+
+
 CORPUS_LOG = [
     # the baseline defects and boundary shapes
     {"buffered": True, "append": False, "caller": False, "existing": None, "close": "close", "domain": True, "recs": [
@@ -554,16 +842,17 @@ def enum_log_cases(maxlen):
     return out
 
 
-def shrink_log(case, workdir, asctime, why):
-    """greedy removal of records while the oracle keeps failing"""
+def shrink_log(case, workdir, asctime, why, fails=None):
+    """greedy removal of records while the oracle keeps failing (or: while `fails(case)` says so)"""
     cur = dict(case)
     changed = True
+    fails = fails or (lambda c: oracle_log(c, run_log_impl(c, workdir), asctime) == why)
     while changed and len(cur["recs"]) > 1:
         changed = False
         for i in range(len(cur["recs"])):
             cand = dict(cur)
             cand["recs"] = cur["recs"][:i] + cur["recs"][i + 1:]
-            if oracle_log(cand, run_log_impl(cand, workdir), asctime) == why:
+            if fails(cand):
                 cur = cand
                 changed = True
                 break
@@ -673,6 +962,7 @@ def oracle_mode(case, obs, asctime):
 
 
 MODE_HEADER = """From Verif Require Import Bytes LogFormat LogHandler.
+Definition rp (n : N) (b : list N) : list N := N.iter n (fun acc => b ++ acc) [].
 (* refused = true: enable_basic_logging raised; [f] is then the file as it was found afterwards *)
 Definition chk (c : bool * str * bool * str * list record * bool * str * nat * nat) : bool :=
   let '(buffered, mode, caller, existing, recs, refused, f, e, x) := c in
@@ -924,11 +1214,15 @@ def _mk_channel(stack, transport, **bca):
     return AsyncChannel(transport=transport, base_channel_args=args)
 
 
-def _drive(stack, chan, ops):
-    """run the operations; returns the list of (op, returned bytes hex | exception class)"""
+def _drive(stack, chan, ops, hooks=None):
+    """run the operations; returns the list of (op, returned bytes hex | exception class).  An op named in `hooks` is a step of
+    the history that is not a channel operation (logging being switched on in the middle of the session): the hook is called."""
     res = []
+    hooks = hooks or {}
 
     def one_sync(op):
+        if op[0] in hooks:
+            return hooks[op[0]]()
         if op[0] == "read":
             return chan.read()
         if op[0] == "write":
@@ -940,6 +1234,8 @@ def _drive(stack, chan, ops):
         raise ValueError(op)
 
     async def one_async(op):
+        if op[0] in hooks:
+            return hooks[op[0]]()
         if op[0] == "read":
             return await chan.read()
         if op[0] == "write":
@@ -1143,14 +1439,35 @@ def run_session_impl(case, workdir):
     cap = _Capture()
     exc = None
     sink = None
+    late = case.get("late")          # None: logging is set up before the channel exists (the usual order)
+    debug_at_open = None
     with _Quiet() as q:
         try:
-            q.lg.addHandler(cap)
-            sl.enable_basic_logging(file=logpath, level="debug", buffer_log=case["buffered"], caller_info=case["caller"])
-            h = [x for x in q.new_handlers() if x is not cap][0]
+            def basic(level):
+                q.lg.addHandler(cap)
+                sl.enable_basic_logging(file=logpath, level=level, buffer_log=case["buffered"], caller_info=case["caller"])
+
+            def switch_on():
+                # the moment from which the session is to be in the log file: marked in the wire record
+                t.events.append(("enable", b""))
+                if late["how"] == "basic":
+                    basic("debug")                                    # enable_basic_logging on an open connection
+                elif late["how"] == "setlevel":
+                    q.lg.setLevel(logging.DEBUG)                      # logging.getLogger("scrapli").setLevel(DEBUG)
+                else:
+                    logging.getLogger("scrapli.channel").setLevel(logging.DEBUG)     # the channel's own logger
+
+            if late is None:
+                basic("debug")
+            elif late["how"] == "basic":
+                q.lg.setLevel(late["level_before"])                   # nothing installed yet, the level the application left
+            else:
+                basic(logging.getLevelName(late["level_before"]).lower())           # handler installed, but not at debug
             chan = _mk_channel(case["stack"], t, channel_log=bio)
             chan.open()
-            res = _drive(case["stack"], chan, [tuple(o) for o in case["ops"]])
+            debug_at_open = chan.logger.isEnabledFor(logging.DEBUG)
+            res = _drive(case["stack"], chan, [tuple(o) for o in case["ops"]], hooks={"enable": switch_on})
+            h = [x for x in q.new_handlers() if x is not cap][0]
             sink = bio.getvalue()
             chan.close()
             if case["close"] == "shutdown":
@@ -1161,15 +1478,19 @@ def run_session_impl(case, workdir):
             exc = type(e).__name__
             res = []
         errors = q.errors()
+        logging.getLogger("scrapli.channel").setLevel(logging.NOTSET)
     content = open(logpath, "rb").read().decode("utf-8") if os.path.exists(logpath) else ""
     shutil.rmtree(d, ignore_errors=True)
-    return {"file": TS_RE.sub(TMASK, content), "errors": errors, "escaped": [], "exc": exc, "records": cap.recs,
+    return {"file": TS_RE.sub(TMASK, content), "errors": errors, "escaped": [], "exc": exc, "records": cap.recs, "debug_enabled_at_open": debug_at_open,
             "events": [(k, c.hex()) for k, c in t.events], "sink": None if sink is None else sink.hex(), "results": res}
 
 
 def _segments_from_events(events):
     """[bytes read, write, bytes read, write, ...] as the transport saw them"""
     segs, cur = [], b""
+    ks = [k for k, _ in events]
+    if "enable" in ks:          # logging was switched on in the middle of the session: what follows is to be in the file
+        events = events[ks.index("enable") + 1:]
     for k, c in events:
         c = bytes.fromhex(c)
         if k == "r":
@@ -1228,6 +1549,34 @@ def oracle_session(case, obs):
     return None
 
 
+LATE_HOW = {"basic": "enable_basic_logging(level='debug')", "setlevel": "logging.getLogger('scrapli').setLevel(DEBUG)",
+            "chanlevel": "logging.getLogger('scrapli.channel').setLevel(DEBUG)"}
+
+
+def shrink_session(case, obs, why, workdir):
+    """drop operations (and, for a read, the chunk it was served) while the oracle keeps failing with the same words"""
+    head = why[:40]
+    cur, cobs, changed = case, obs, True
+    while changed:
+        changed = False
+        for i, op in enumerate(cur["ops"]):
+            if op[0] not in ("read", "write"):
+                continue
+            chunks = list(cur["chunks"])
+            if op[0] == "read":
+                j = sum(1 for o in cur["ops"][:i] if o[0] == "read")
+                if j >= len(chunks) or any(o[0] in ("get_prompt", "send_input") for o in cur["ops"][:i]):
+                    continue
+                del chunks[j]
+            cand = dict(cur, ops=cur["ops"][:i] + cur["ops"][i + 1:], chunks=chunks)
+            o = run_session_impl(cand, workdir)
+            w = oracle_session(cand, o)
+            if w and w[:40] == head:
+                cur, cobs, changed = cand, o, True
+                break
+    return cur, cobs
+
+
 SESSION_ALPHABET = [39, 34, 37, 92, 13, 10, 9, 27, 0, 32, 97, 98, 114, 35, 62, 127, 128, 255, 0x5b, 0x6d]
 
 
@@ -1249,9 +1598,22 @@ def gen_session_case(rng, stack):
     if rng.random() < 0.5:      # end on reads: the pending record must reach the file at close
         chunks.append(b"tail\r\n#")
         ops.append(["read"])
-    return {"stack": stack, "buffered": rng.random() < 0.75, "caller": rng.random() < 0.25, "close": rng.choice(["close", "shutdown"]),
-            "host": rng.choice(["dev1", "", "a" * 30]), "port": rng.choice([22, 0, 65535]), "uid": rng.choice(["", "u1"]),
-            "chunks": [c.hex() for c in chunks], "ops": ops}
+    case = {"stack": stack, "buffered": rng.random() < 0.75, "caller": rng.random() < 0.25, "close": rng.choice(["close", "shutdown"]),
+            "host": rng.choice(["dev1", "", "a" * 30]), "port": rng.choice([22, 0, 65535]), "uid": rng.choice(["", "u1"])}
+    if rng.random() < 0.45:
+        # logging is switched on AFTER channel.open(): before the first operation, between two operations (also inside a run of
+        # reads), or after the last one.  'basic': enable_basic_logging(level="debug") on the open connection, nothing installed
+        # before; 'setlevel': the handler is there from the start at a higher level, then getLogger("scrapli").setLevel(DEBUG);
+        # 'chanlevel': the same through the channel's own logger "scrapli.channel"
+        how = rng.choice(["basic", "basic", "setlevel", "setlevel", "chanlevel"])
+        case["late"] = {"how": how, "level_before": rng.choice([0, 20, 30]) if how == "basic" else rng.choice([20, 30, 40, 50])}
+        ops.insert(rng.choice([0, 0, rng.randrange(len(ops) + 1), rng.randrange(len(ops) + 1), len(ops)]), ["enable"])
+        if rng.random() < 0.7:     # something is read after the moment
+            for _ in range(rng.choice([1, 2, 3])):
+                chunks.append(bytes(rng.choice(SESSION_ALPHABET) for _ in range(rng.choice([1, 3, 7, 20]))))
+                ops.append(["read"])
+    case.update({"chunks": [c.hex() for c in chunks], "ops": ops})
+    return case
 
 
 # ------------------------------------------------------------------------------------------------
@@ -1333,10 +1695,20 @@ def run(rep):
     todo = [dict(c) for c in CORPUS_LOG] + enum_log_cases(4 if thorough else 3) + [gen_log_case(rng, wide) for _ in range(n_log)] + \
            [gen_log_case(rng, wide, malformed=True) for _ in range(n_mal)]
     dist["enumerated_kind_sequences"] = len(enum_log_cases(4 if thorough else 3))
-    for case in todo:
+    # size families: payloads of 2^k + d bytes (k = 10..18), small and big records mixed.  `sized`: model + oracle, spread over the
+    # shards of the model evaluation; `sized_oracle_only`: decided by the oracle alone (after the log-multi cases, see below)
+    sized, sized_oracle_only = size_cases(rng, wide, thorough)
+    step = max(1, len(todo) // (len(sized) + 1))
+    for j, c in enumerate(sized):
+        todo.insert(min(len(todo), (j + 1) * step + j), c)
+    dist["size_families"] = {"cases": 0, "model_evaluated": len(sized), "oracle_only": len(sized_oracle_only), "powers": {}, "deltas": {}, "shapes": {},
+                             "big_kinds": {}, "measures": {}, "fills": {}, "buffered": 0, "read_before_big_read_unflushed": 0, "bytes_in_files": 0}
+
+    def log_one(case, with_term):
         obs = run_log_impl(case, rep.workdir)
         cases.append((case, obs))
-        terms.append(log_case_term(case, obs, asctime))
+        if with_term:
+            terms.append(log_case_term(case, obs, asctime))
         dist["cases"] += 1
         dist["buffered"] += case["buffered"]
         dist["append"] += case["append"]
@@ -1352,11 +1724,27 @@ def run(rep):
         if case["recs"] and case["recs"][-1]["kind"] in ("lazy_read", "eager_read"):
             dist["ends_on_read"] += 1
         nread = sum(1 for r in case["recs"] if r["kind"] in ("lazy_read", "eager_read"))
-        rep.case(("log", json.dumps(case, sort_keys=True)), nontrivial=len(case["recs"]) >= 2 and nread >= 1)
+        sf = case.get("size_family")
+        if sf:
+            sd = dist["size_families"]
+            sd["cases"] += 1
+            sd["buffered"] += case["buffered"]
+            sd["bytes_in_files"] += len(obs["file"])
+            for key, val in (("powers", sf["power"]), ("deltas", sf["delta"]), ("shapes", sf["shape"]), ("fills", sf["fill"])):
+                sd[key][val] = sd[key].get(val, 0) + 1
+            for kind, meas, _ in sf["sizes"]:
+                sd["big_kinds"][kind] = sd["big_kinds"].get(kind, 0) + 1
+                sd["measures"][meas] = sd["measures"].get(meas, 0) + 1
+            # a big read arriving while smaller reads are pending in the buffer
+            sd["read_before_big_read_unflushed"] += case["buffered"] and any(a in "sBE" and b in "BE" for a, b in zip(sf["shape"], sf["shape"][1:]))
+        rep.case(("log", log_case_key(case)), nontrivial=len(case["recs"]) >= 2 and nread >= 1)
         if case["domain"]:
             why = oracle_log(case, obs, asctime)
             if why:
                 fails.append((len(cases) - 1, why))
+
+    for case in todo:
+        log_one(case, True)
     # 3a'. log-multi : several handler instances in one process; every file goes to the model and the oracle as the file of
     # ONE handler given the records routed to it
     n_multi = 900 if thorough else 70
@@ -1392,6 +1780,9 @@ def run(rep):
         bad_file = oracle_multilog(mc, mobs, asctime)
         if bad_file:
             mfails.append((len(mcases) - 1, bad_file))
+    # the size-family cases the model does not evaluate: real handler + oracle (cases[] is longer than terms[] from here on)
+    for case in sized_oracle_only:
+        log_one(case, False)
     rep.sample({"suite": "log-multi", "case": mcases[-1][0], "files": mcases[-1][1]["files"]})
     rep.sample({"suite": "log-seq", "case": cases[0][0], "file": cases[0][1]["file"]})
     if len(cases) > 20:
@@ -1419,17 +1810,30 @@ def run(rep):
     # the files of a failing multi-handler case are not reported a second time as model disagreements
     multi_failing = set(j for ix, _ in mfails for j in range(mranges[ix][0], mranges[ix][0] + mranges[ix][1]))
     seen_sig = set()
+    if fails:       # first the failures that are about the bytes of the reads themselves
+        fails = sorted(fails, key=lambda f: why_read_order(*cases[f[0]]) is None)
     for ix, why in fails:
         case, obs = cases[ix]
         sig = classify_log(case, obs)
         if sig in seen_sig or len(seen_sig) >= 6:
             continue
         seen_sig.add(sig)
-        small = shrink_log(case, rep.workdir, asctime, why)
+        # a failure that is about the BYTES of the reads (lost, twice, out of order — whatever the layout of the lines) is shrunk as
+        # such, so that the input reported shows it and not merely another spelling of a line
+        bytes_wrong = (lambda c: why_read_order(c, run_log_impl(c, rep.workdir)) is not None) if why_read_order(case, obs) else None
+        small = shrink_log(case, rep.workdir, asctime, why, bytes_wrong)
+        if any(len(r["msg"]) + sum(len(v) for _, v in r["args"]) >= 128 for r in small["recs"]):
+            small = shrink_log_sizes(small, rep.workdir, asctime, why, bytes_wrong)       # the shortest payloads that still fail
+        small = {k: v for k, v in small.items() if k != "size_family"}
         sobs = run_log_impl(small, rep.workdir)
-        rep.violation("log file (%s handler, %s mode): %s" % ("buffering" if small["buffered"] else "plain", "append" if small["append"] else "write",
-                                                             oracle_log(small, sobs, asctime) or why),
-                      {"suite": "log-seq", "case": small, "observed": sobs, "expected_regex": expected_log_regex(small, asctime),
+        why = oracle_log(small, sobs, asctime) or why
+        if bytes_wrong and why_read_order(small, sobs):
+            why = "%s: %s" % (why, why_read_order(small, sobs))
+        lens = [len(m) for _, m in [(r, (r["msg"] % _args(r)) if r["args"] else r["msg"]) for r in small["recs"]]]
+        rx = expected_log_regex(small, asctime)
+        rep.violation("log file (%s handler, %s mode%s): %s" % ("buffering" if small["buffered"] else "plain", "append" if small["append"] else "write",
+                                                               ", messages of %s characters" % lens if max(lens + [0]) >= 128 else "", why),
+                      {"suite": "log-seq", "case": small, "observed": sobs, "expected_regex": rx if len(rx) <= 8000 else rx[:8000] + " ... (%d characters)" % len(rx),
                        "target_mismatches": target_mismatches(small, sobs, asctime), "rerun": "./check C20 --replay <this file>"}, signature=sig)
     if bad is None:
         rep.broken.append("correspondence log-seq (model evaluation failed)")
@@ -1440,7 +1844,7 @@ def run(rep):
             case, obs = cases[ix]
             rep.broken.append("correspondence %s: model differs from implementation (%s)" % (
                 "log-multi (one file of several handlers)" if ix in multi_ix else "log-seq", "inside the property's domain" if case["domain"] else "malformed records"))
-            mfile = common.eval_term(rep.workdir, "dis_c20_%d" % ix, "From Verif Require Import Bytes LogFormat LogHandler.",
+            mfile = common.eval_term(rep.workdir, "dis_c20_%d" % ix, "From Verif Require Import Bytes LogFormat LogHandler.\n" + RP_DEF,
                                      "let st := run_handler %s (fixed (mkFC %s true)) %s %s %s in (file st, errors st, escaped st)" % (
                                          coq_bool(case["buffered"]), coq_bool(case["caller"]), cps(case["existing"] or ""), coq_bool(case["append"]),
                                          coq_list([rec_term(r, asctime) for r in case["recs"]])))
@@ -1743,7 +2147,9 @@ def run(rep):
     # 3c. session : channel + log file together (records produced by the hot path itself)
     n_sess = 1500 if thorough else 120
     scases, sterms, sfails = [], [], []
-    sdist = {"cases": 0, "buffered": 0, "stacks": {}, "records": 0, "lazy_records": 0, "ends_on_read": 0, "uncapturable": 0}
+    sdist = {"cases": 0, "buffered": 0, "stacks": {}, "records": 0, "lazy_records": 0, "ends_on_read": 0, "uncapturable": 0,
+             "logging_switched_on_after_open": {}, "late_reads_before_switch": 0, "late_reads_after_switch": 0, "late_switch_position": {},
+             "late_debug_off_at_open": 0}
     for i in range(n_sess):
         stack = "sync" if i % 2 == 0 else "asyncio"
         case = gen_session_case(rng, stack)
@@ -1755,6 +2161,16 @@ def run(rep):
         sdist["records"] += len(obs["records"])
         sdist["lazy_records"] += sum(1 for r in obs["records"] if r["args"])
         sdist["ends_on_read"] += bool(case["ops"]) and case["ops"][-1][0] in ("read", "get_prompt")
+        if case.get("late"):
+            at = [o[0] for o in case["ops"]].index("enable")
+            sdist["logging_switched_on_after_open"][case["late"]["how"]] = sdist["logging_switched_on_after_open"].get(case["late"]["how"], 0) + 1
+            ks = [k for k, _ in obs["events"]]
+            after = ks[ks.index("enable") + 1:] if "enable" in ks else []
+            sdist["late_reads_before_switch"] += ks[:len(ks) - len(after)].count("r")
+            sdist["late_reads_after_switch"] += after.count("r")
+            sdist["late_switch_position"]["first" if at == 0 else "last" if at == len(case["ops"]) - 1 else "between"] = \
+                sdist["late_switch_position"].get("first" if at == 0 else "last" if at == len(case["ops"]) - 1 else "between", 0) + 1
+            sdist["late_debug_off_at_open"] += obs["debug_enabled_at_open"] is False
         rep.case(("sess", json.dumps(case, sort_keys=True)), nontrivial=sum(1 for o in case["ops"] if o[0] == "read") >= 2)
         why = oracle_session(case, obs)
         if why:
@@ -1772,12 +2188,16 @@ def run(rep):
     seen = set()
     for ix, why in sfails:
         case, obs = scases[ix]
-        key = (case["buffered"], why[:40])
+        key = (case["buffered"], bool(case.get("late")), why[:40])
         if key in seen or len(seen) >= 3:
             continue
         seen.add(key)
-        rep.violation("session (%s channel, %s handler): %s" % (case["stack"], "buffering" if case["buffered"] else "plain", why),
-                      {"suite": "session", "case": case, "observed": {k: obs[k] for k in ("file", "errors", "events", "sink", "exc", "results")},
+        if case.get("late"):        # fewer operations while it keeps failing the same way
+            case, obs = shrink_session(case, obs, why, rep.workdir)
+            why = oracle_session(case, obs) or why
+        rep.violation("session (%s channel, %s handler%s): %s" % (case["stack"], "buffering" if case["buffered"] else "plain",
+                                                                 ", logging switched on after open() by %s" % LATE_HOW[case["late"]["how"]] if case.get("late") else "", why),
+                      {"suite": "session", "case": case, "observed": {k: obs[k] for k in ("file", "errors", "events", "sink", "exc", "results", "debug_enabled_at_open")},
                        "rerun": "./check C20 --replay <this file>"})
     if sbad is None:
         rep.broken.append("correspondence session (model evaluation failed)")
@@ -1831,11 +2251,26 @@ def run(rep):
                 "close(), a snapshot of the destination after EVERY close; oracle per session: append = previous snapshot + the bytes served in the "
                 "session, CRs removed; write = the bytes served in this session alone; BytesIO = previous snapshot + the reads of the operations that "
                 "completed (a read may fail loudly on a closed log object, it may not vanish); no handle left open, open() / close() do not raise; "
-                "session: channel + log file together. non-trivial = (log) >= 2 records with a read, (chan) a sink and a CR or ESC served, "
+                "size families (log-seq): payloads of 2^k + d bytes, k = 10..18 (1 KiB .. 256 KiB), d = -1, 0, 1, the size taken as the length of the "
+                "bytes or as the length of their repr (the text the handler buffers); big lazy reads, big eager reads, big lazy writes and big info "
+                "messages mixed with small reads / writes / infos in 20 fixed shapes (small read(s) directly before a big read, big first, big after a "
+                "write, two big ones, big non-read record between reads, ...) taken in rotation over the 27 size points (thorough: 5 rounds), plus random "
+                "small/big shapes; every payload starts with a tag naming its record, so a swap or a loss cannot cancel out; same oracle (every message in "
+                "order, runs of reads coalesced into the concatenated payload), all cases; the model evaluates the cases up to 16 KiB + 1, one per power "
+                "above and the small random ones (thorough: every periodic one); a failing case is shrunk by records, then by bisection on the payload lengths; "
+                "session: channel + log file together; in 45 % of the sessions logging is switched on AFTER channel.open() — before the first operation, "
+                "between two operations (inside runs of reads too) or after the last — by enable_basic_logging(level='debug') on the open connection "
+                "(nothing installed before; scrapli logger at NOTSET / INFO / WARNING), by logging.getLogger('scrapli').setLevel(DEBUG) or by "
+                "getLogger('scrapli.channel').setLevel(DEBUG) with the file handler installed from the start at INFO .. CRITICAL; the moment is marked in "
+                "the wire record; oracle: the reads / writes in the file are exactly those on the wire from that moment on, in order. non-trivial = (log) >= 2 records with a read, (chan) a sink and a CR or ESC served, "
                 "(driver) a sink, a login in the channel and >= 2 reads, (commandeer) a sink and reads through both objects, (log-multi) >= 2 records with a read, "
                 "(log-mode) a spelling other than 'write' / 'append' on a file with content, (reopen) a sink and reads in a later session, "
                 "(session) >= 2 reads; distinct = the whole case")
     shutil.rmtree(os.path.join(rep.workdir, "tmp"), ignore_errors=True)
+
+
+def _abbr(t, keep=90):
+    return t if len(t) <= 2 * keep + 20 else "%s ...[%d characters]... %s" % (t[:keep], len(t) - 2 * keep, t[-keep:])
 
 
 def replay(path):
@@ -1854,10 +2289,17 @@ def replay(path):
         why = oracle_log(case, obs, asctime)
         print("records:")
         for rd in case["recs"]:
-            print("   %r %% %r  extra=%r" % (rd["msg"], _args(rd), rd["extra"]))
+            m = (rd["msg"] % _args(rd)) if rd["args"] else rd["msg"]
+            print("   %s %% %s  extra=%r%s" % (_abbr(repr(rd["msg"])), _abbr(repr(_args(rd))), rd["extra"], "   [message: %d characters]" % len(m) if len(m) >= 128 else ""))
         print("handler: %s, mode: %s, closed by: %s" % ("ScrapliFileHandler" if case["buffered"] else "FileHandler", "append" if case["append"] else "write", case["close"]))
-        print("file:\n" + obs["file"])
+        print("file:\n" + "".join(_abbr(ln) + "\n" for ln in obs["file"].split("\n")[:-1]) + _abbr(obs["file"].split("\n")[-1]))
+        if max([len(ln) for ln in obs["file"].split("\n")]) > 200:
+            print("expected messages, in this order:")
+            for _, m in expected_entries(case):
+                print("   " + _abbr(m))
         print("stderr errors: %d %s  escaped: %r" % (obs["errors"], obs["stderr_tail"][-200:].replace("\n", " / "), obs["escaped"]))
+        if why and why_read_order(case, obs):
+            print(why_read_order(case, obs))
         for ln, shown, own, ex in target_mismatches(case, obs, asctime):
             print("line %d: target column %r, but its record was emitted with extras %r (own target %r)" % (ln, shown, ex, own))
     elif suite == "chan-log":
@@ -1945,6 +2387,11 @@ def replay(path):
         obs = run_session_impl(case, wd)
         why = oracle_session(case, obs)
         print("ops:", case["ops"])
+        if case.get("late"):
+            print("logging before channel.open(): %s; the step 'enable' is %s; from then on every read / write of the session belongs in the file" % (
+                "nothing installed, scrapli logger level %s" % logging.getLevelName(case["late"]["level_before"]) if case["late"]["how"] == "basic" else
+                "enable_basic_logging(level=%r)" % logging.getLevelName(case["late"]["level_before"]).lower(), LATE_HOW[case["late"]["how"]]))
+            print("channel logger enabled for DEBUG right after open():", obs["debug_enabled_at_open"])
         print("file:\n" + obs["file"])
         print("wire:", [(k, bytes.fromhex(c)) for k, c in obs["events"]])
     else:
@@ -1996,6 +2443,11 @@ MANIFEST = {
             "file mode from the raw spelling is noticed. Both models are run (vm_compute) against the real code: log-mode cases against enable_basic_logging "
             "(accepted / refused, file, error counts), re-open histories against the real drivers session by session (observed open / read / close events, "
             "the snapshot after each close, the number of reads of raising operations). "
+            "Record sizes: the log-seq correspondence and oracle also run on size families — payloads of 2^k + d bytes (k = 10..18, d = -1, 0, 1, measured "
+            "raw and as repr) in runs mixing small and big reads, writes and info messages; file_log_complete is size-independent (any byte lists), "
+            "the correspondence ties that to the code for records up to 256 KiB. Sessions where logging is switched on after channel.open() "
+            "(enable_basic_logging / setLevel(DEBUG) on the scrapli or the channel logger, before / between / after the operations): from that moment "
+            "every read and write on the wire is in the file, in order. "
             "The translator discovers the handler's attribute names from emit / emit_buffered (the prefix the message is tested "
             "against, the cut of the payload, the attributes they write, the f-string assigned to .msg) instead of assuming them.",
     "note": "Proved of the hand-written Gallina models (LogHandler.v, LogFormat.v, ChanLog.v); the models are tied to the code by the correspondence run and the "
@@ -2023,6 +2475,15 @@ MANIFEST = {
             "operation on closed file): the oracle accepts a read that fails loudly and rejects one that vanishes, the Coq statement is the refuted "
             "reopen_full + reopen_bytesio_closed_loud. In write mode every open() truncates the file, so after a re-open it holds the last session only: "
             "that is what 'write' is taken to mean (the oracle checks the snapshot after every close, so no session is unobserved). "
+            "Size families: every case goes through the real handler and the oracle; the model (vm_compute) evaluates a SAMPLE of the big ones in the "
+            "quick tier (all cases up to 16 KiB + 1, one case per power of two above, the small random mixes; thorough: all periodic ones) — a list "
+            "literal of 64 KiB does not get through coqc, so long periodic strings (payloads AND the observed file) are handed to Coq run-length "
+            "encoded without loss (`rp n block`, decoded by N.iter inside Coq; _compact in the harness) and the big payloads are a tag + a periodic "
+            "fill; the cases with random (non-periodic) big payloads are oracle-only. The oracle's regex is evaluated with '.{n}' + string equality in "
+            "the place of literal messages of >= 2048 characters (match_log; falls back to the literal regex whenever that is not conclusive). "
+            "Late logging: WHICH reads produce a record (logger levels, isEnabledFor, the moment logging is switched on) is outside the Coq models — "
+            "the handler model is fed the records the scrapli logger handed to its handlers; that every read after the switch produces one is "
+            "oracle-only (wire record from the marked moment on against the parsed file). "
             "Mode spellings: str.lower / str.strip are modelled on code points with A-Z only (no other character lower-cases to a letter of 'write' / "
             "'append'); the unchanged tree refuses spellings with surrounding blanks, which the oracle allows (refused cleanly) as well as serving them; "
             "non-str modes are outside the typed signature and not generated.",
